@@ -1,0 +1,106 @@
+//! Verification hooks (only compiled with `--cfg httparse_verif`).
+//!
+//! Counters observed by the external runtime monitors in /verif. They only
+//! count; no parser branch depends on them (except the fuel guard, which
+//! panics when an armed budget of cursor operations is exhausted).
+//!
+//! The counters are bumped with a relaxed load + store (not an atomic RMW):
+//! they are exact in single-threaded use, which is how the monitors read
+//! them, and merely advisory when several threads parse concurrently.
+#![allow(missing_docs)]
+
+use core::sync::atomic::{AtomicU64, Ordering::Relaxed};
+
+/// Single-byte reads through the cursor (`next`, `peek`, `peek_ahead`).
+pub static READS: AtomicU64 = AtomicU64::new(0);
+/// Block peeks (`peek_n`) and vector loads.
+pub static BLOCKS: AtomicU64 = AtomicU64::new(0);
+/// Sum of forward cursor advance distances.
+pub static TRAVEL: AtomicU64 = AtomicU64::new(0);
+/// Number of times the cursor was moved backwards.
+pub static BACKWARD: AtomicU64 = AtomicU64::new(0);
+/// Number of runtime CPU feature detections executed.
+pub static DETECTS: AtomicU64 = AtomicU64::new(0);
+/// Bitmask of scanner functions entered (see the `B_*` constants).
+pub static BACKENDS: AtomicU64 = AtomicU64::new(0);
+/// Cursor operations since the last `reset()`.
+pub static OPS: AtomicU64 = AtomicU64::new(0);
+/// Fuel: when non-zero, more than this many cursor operations panic.
+pub static FUEL: AtomicU64 = AtomicU64::new(0);
+
+pub const B_SWAR_URI: u64 = 1 << 0;
+pub const B_SWAR_VALUE: u64 = 1 << 1;
+pub const B_SWAR_NAME: u64 = 1 << 2;
+pub const B_SSE42_URI: u64 = 1 << 3;
+pub const B_SSE42_VALUE: u64 = 1 << 4;
+pub const B_AVX2_URI: u64 = 1 << 5;
+pub const B_AVX2_VALUE: u64 = 1 << 6;
+pub const B_NEON_URI: u64 = 1 << 7;
+pub const B_NEON_VALUE: u64 = 1 << 8;
+pub const B_NEON_NAME: u64 = 1 << 9;
+
+#[inline(always)]
+pub fn bump(c: &AtomicU64, n: u64) {
+    c.store(c.load(Relaxed).wrapping_add(n), Relaxed);
+}
+
+#[inline(always)]
+pub fn mark(bit: u64) {
+    BACKENDS.store(BACKENDS.load(Relaxed) | bit, Relaxed);
+}
+
+/// One cursor operation: counts it and enforces the fuel budget.
+#[inline(always)]
+pub fn op() {
+    let o = OPS.load(Relaxed).wrapping_add(1);
+    OPS.store(o, Relaxed);
+    let f = FUEL.load(Relaxed);
+    if f != 0 && o > f {
+        fuel_exhausted();
+    }
+}
+
+#[cold]
+#[inline(never)]
+fn fuel_exhausted() -> ! {
+    // disarm so that unwinding code does not panic again
+    FUEL.store(0, Relaxed);
+    panic!("httparse_verif: fuel exhausted");
+}
+
+pub fn set_fuel(limit: u64) {
+    FUEL.store(limit, Relaxed);
+}
+
+pub fn reset() {
+    READS.store(0, Relaxed);
+    BLOCKS.store(0, Relaxed);
+    TRAVEL.store(0, Relaxed);
+    BACKWARD.store(0, Relaxed);
+    BACKENDS.store(0, Relaxed);
+    OPS.store(0, Relaxed);
+}
+
+/// Snapshot of all counters.
+#[derive(Clone, Copy, Debug, Default, PartialEq, Eq)]
+pub struct Counters {
+    pub reads: u64,
+    pub blocks: u64,
+    pub travel: u64,
+    pub backward: u64,
+    pub detects: u64,
+    pub backends: u64,
+    pub ops: u64,
+}
+
+pub fn snapshot() -> Counters {
+    Counters {
+        reads: READS.load(Relaxed),
+        blocks: BLOCKS.load(Relaxed),
+        travel: TRAVEL.load(Relaxed),
+        backward: BACKWARD.load(Relaxed),
+        detects: DETECTS.load(Relaxed),
+        backends: BACKENDS.load(Relaxed),
+        ops: OPS.load(Relaxed),
+    }
+}
